@@ -20,7 +20,7 @@ func init() {
 			" Added after the seeded-change rounds: (R1) isDone looks at more_results first (shared with C06.R2); (R2) the close request is keyed by the scanner's current start row and carries the current region-scanner id; (R5) the renew goroutine is started only on an edge where closed was tested false after the fetch (no scanner method runs between the test and the go statement).",
 		Residue:   "server-side lease state; that the asynchronous close request arrives",
 		Technique: "must-pass-through path search, who-writes tables on the scanner state, blocking-operation enumeration",
-		Run:       runC14,
+		Run:       runC14All,
 	})
 }
 
@@ -155,6 +155,10 @@ func runC14(c *kit.Ctx) {
 		// Close
 		e2 := kit.PathFromEntry(closeFn, kit.PathQuery{
 			Stop: func(in ssa.Instruction) bool {
+				// called, or registered to run when Close returns
+				if d, ok := in.(*ssa.Defer); ok && kit.CalleeName(d) == kit.M("", "*scanner", "closeRegionScanner") {
+					return true
+				}
 				call, ok := in.(*ssa.Call)
 				return ok && kit.CalleeName(call) == kit.M("", "*scanner", "closeRegionScanner")
 			},
@@ -184,6 +188,7 @@ func runC14(c *kit.Ctx) {
 
 	// ---- R2 ---------------------------------------------------------------
 	c.StartRule("R2", "the region-scanner id is cleared only when the server side is released", 3)
+	oneShotScansCloseTheirScanner(c)
 	for _, a := range p.FieldAccesses(idF) {
 		st, ok := a.Instr.(*ssa.Store)
 		if !ok || a.Kind != "store" {
@@ -211,7 +216,23 @@ func runC14(c *kit.Ctx) {
 				Target: func(in ssa.Instruction) bool { return in == ssa.Instruction(st) },
 				Stop: func(in ssa.Instruction) bool {
 					g, ok := in.(*ssa.Go)
-					return ok && strings.HasSuffix(kit.CalleeName(g), "RPCClient).SendRPC")
+					if !ok {
+						return false
+					}
+					if strings.HasSuffix(kit.CalleeName(g), "RPCClient).SendRPC") {
+						return true
+					}
+					// go func() { _, _ = s.SendRPC(rpc) }()
+					if mc, isLit := g.Call.Value.(*ssa.MakeClosure); isLit {
+						found := false
+						kit.Instrs(mc.Fn.(*ssa.Function), func(y ssa.Instruction) {
+							if cc, ok := y.(ssa.CallInstruction); ok && strings.HasSuffix(kit.CalleeName(cc), "RPCClient).SendRPC") {
+								found = true
+							}
+						})
+						return found
+					}
+					return false
 				},
 				SkipEdge: func(from, to *ssa.BasicBlock) bool {
 					for _, f := range kit.EdgeFacts(from, to) {
@@ -280,38 +301,65 @@ func runC14(c *kit.Ctx) {
 
 	// ---- R4 ---------------------------------------------------------------
 	c.StartRule("R4", "errors are reported only while the scanner is open (or holds unreported rows, which are dropped); io.EOF only when nothing is buffered", 6)
+	// the error a scanner request ends with is classified by the stated table: an exception that is not retryable
+	// there (UnknownScannerException: the lease is gone) must reach Next instead of being retried for ever
+	exceptionTableOracle(c)
 	kit.Instrs(next, func(in ssa.Instruction) {
 		r, ok := in.(*ssa.Return)
 		if !ok {
 			return
 		}
-		ev := returnedError(r)
-		if ev == nil || kit.IsNilConst(kit.Root(ev)) || isEOF(ev) {
+		ev0 := returnedError(r)
+		if ev0 == nil {
 			return
 		}
-		if ex, ok := ev.(*ssa.Extract); ok {
-			if call, ok := ex.Tuple.(*ssa.Call); ok && kit.CalleeName(call) == kit.M("", "*scanner", "peek") {
-				c.OK(next, "error-from-peek", r.Pos(), "error produced by peek (checked below: only while open)")
-				return
+		// one verdict per error value that can be returned here (a helper's returns are merged into one)
+		for _, lf := range valueLeaves(ev0, r.Block()) {
+			ev := lf.val
+			if kit.IsNilConst(kit.Root(ev)) || isEOF(ev) {
+				continue
 			}
-		}
-		good, why := closedFalseAt(r.Block()), "returned only on the edge where the scanner is not closed"
-		if !good {
-			// or: on every way here the scanner is open or still holds fetched rows (nothing was reported yet), and
-			// those rows are dropped before the error is returned, so that the next call answers io.EOF
-			dropped := false
-			kit.Instrs(next, func(x ssa.Instruction) {
-				if st, ok := x.(*ssa.Store); ok {
-					if fa, ok := st.Addr.(*ssa.FieldAddr); ok && kit.FieldVar(fa.X.Type(), fa.Field) == resultsF && kit.IsNilConst(kit.Root(st.Val)) && kit.Dominates(st, r) {
-						dropped = true
-					}
+			if ex, ok := ev.(*ssa.Extract); ok {
+				if call, ok := ex.Tuple.(*ssa.Call); ok && kit.CalleeName(call) == kit.M("", "*scanner", "peek") {
+					c.OK(next, "error-from-peek", r.Pos(), "error produced by peek (checked below: only while open)")
+					continue
 				}
-			})
-			if dropped && kit.OnAllWays(r.Block(), func(facts []kit.Fact) bool { return closedFalseIn(facts) || resultsEmptyIn(facts, false) }, 0) {
-				good, why = true, "returned only where the scanner is open or still holds fetched rows, which are dropped first: the next call answers io.EOF"
 			}
+			// the blocks control came through to select this value
+			var froms []*ssa.BasicBlock
+			for ph, i := range lf.path {
+				froms = append(froms, ph.Block().Preds[i])
+			}
+			good, why := closedFalseAt(r.Block()) || closedFalseIn(lf.facts), "returned only on the edge where the scanner is not closed"
+			if !good {
+				// or: on every way here the scanner is open or still holds fetched rows (nothing was reported yet), and
+				// those rows are dropped before the error is returned, so that the next call answers io.EOF
+				dropped := false
+				kit.Instrs(next, func(x ssa.Instruction) {
+					if st, ok := x.(*ssa.Store); ok {
+						if fa, ok := st.Addr.(*ssa.FieldAddr); ok && kit.FieldVar(fa.X.Type(), fa.Field) == resultsF && kit.IsNilConst(kit.Root(st.Val)) {
+							if kit.Dominates(st, r) {
+								dropped = true
+							}
+							for _, fb := range froms {
+								if st.Block() == fb || st.Block().Dominates(fb) {
+									dropped = true
+								}
+							}
+						}
+					}
+				})
+				want := func(facts []kit.Fact) bool { return closedFalseIn(facts) || resultsEmptyIn(facts, false) }
+				ok := kit.OnAllWays(r.Block(), want, 0)
+				for _, fb := range froms {
+					ok = ok || kit.OnAllWays(fb, want, 0)
+				}
+				if dropped && ok {
+					good, why = true, "returned only where the scanner is open or still holds fetched rows, which are dropped first: the next call answers io.EOF"
+				}
+			}
+			c.Check(good, next, "error-while-open", r.Pos(), why, "Next can report this error although the scanner is already closed and has nothing buffered: a cancelled or failed scanner reports the error on every call instead of once followed by io.EOF")
 		}
-		c.Check(good, next, "error-while-open", r.Pos(), why, "Next can report this error although the scanner is already closed and has nothing buffered: a cancelled or failed scanner reports the error on every call instead of once followed by io.EOF")
 	})
 	// end-of-scan is never answered over rows that were fetched and not yet handed out
 	for _, fn := range []*ssa.Function{next, peek} {
@@ -345,6 +393,7 @@ func runC14(c *kit.Ctx) {
 
 	// ---- R5 ---------------------------------------------------------------
 	c.StartRule("R5", "the renewer is cancelled before every fetch and on close", 2)
+	renewerNeverEndsTheScan(c)
 	renewerStopsOnError(c)
 	scanRequestLevelOptions(c)
 	cancelCall := func(in ssa.Instruction) bool {
@@ -464,5 +513,13 @@ func runC14(c *kit.Ctx) {
 			SkipEdge: nilEdge,
 		})
 		c.Check(e == nil, closeFn, "renew-cancel-on-close", closeFn.Pos(), "Close cancels a running renewer", "Close leaves the renewer running: "+c.BlockPath(e))
+	}
+}
+
+// runC14All: the rules of C14 plus what "reports an error once, together with the assembled row" needs of Next.
+func runC14All(c *kit.Ctx) {
+	runC14(c)
+	if !c.Frozen {
+		embed(c, "R6", "an error ends the scan with the error, never with a truncated row handed out as complete (the row-assembly rules of C06, run as one rule here)", 20, runC06)
 	}
 }
